@@ -707,3 +707,102 @@ def attach(rep, prog):
     live = [s for s in Interp(prog, Scenario(inline=noinline, args=args)).run(uf) if s.raised is None]
     ok = bool(live) and all(sum(1 for c in s.calls if c[0] == '%s._signatures.insort' % uf.params[0] and c[1] == [o]) == 1 and render(s.ret) == uf.params[0] for s in live)
     rep.check(ok, 'C14.5', 'PGPUID.__or__', 'signature inserted', 'a certification is inserted into the identity\'s collection', where=uf.where)
+    resorted(rep, prog, U, uf)
+
+
+def _self_reads(fn):
+    """Attributes of the receiver a function reads (structural: attribute loads on its first parameter)."""
+    me = fn.params[0] if fn.params else None
+    return {n.attr for n in ast.walk(fn.node) if isinstance(n, ast.Attribute) and isinstance(n.value, ast.Name) and n.value.id == me and isinstance(n.ctx, ast.Load)}
+
+
+def resorted(rep, prog, U, uf):
+    """C14.5: a user id is an element of its key's sorted collection; its rank (PGPUID.__lt__) reads its own signatures (the most
+    recent self-issued one, whatever its type).  So every attachment of a signature that this read can select must re-sort the
+    user id: the condition under which resort is reached may depend on the key being there, on the user id being filed in it, and
+    on the very attributes of the signature the rank reads to select it - on nothing else (truth table over the decisions)."""
+    lt = U.methods.get('__lt__')
+    if lt is None:
+        rep.ok('C14.5', 'PGPUID ordering', 'no __lt__: rank does not depend on signatures')
+        return
+    # does the rank read the signatures?  (closure over the properties of the class)
+    seen, todo = set(), set(_self_reads(lt))
+    getters = {}
+    while todo:
+        a = todo.pop()
+        if a in seen:
+            continue
+        seen.add(a)
+        pp = U.find_plain_prop(a)
+        g = pp.get('get') if pp else None
+        if g is not None:
+            getters[a] = g
+            todo |= _self_reads(g)
+    if '_signatures' not in seen:
+        rep.ok('C14.5', 'PGPUID ordering', 'rank does not read the signatures')
+        return
+    # which attributes of a signature decide whether the rank looks at it
+    selects = set()
+    for a, g in getters.items():
+        if '_signatures' not in _self_reads(g):
+            continue
+        _, recs = observe(prog, g)
+        for r in recs:
+            if re.search(r'\._signatures\b', r.coll):
+                v = re.escape(r.var)
+                for status, facts, events, ys in r.paths:
+                    for f in facts:
+                        selects |= set(re.findall(r'%s\.(\w+)' % v, f[0]))
+                for c in r.conds:
+                    selects |= set(re.findall(r'%s\.(\w+)' % v, c))
+    # properties of the user id whose value depends on its signatures: a re-sort may not be made conditional on them either
+    sigdeps = {'_signatures'}
+    grew = True
+    while grew:
+        grew = False
+        for a, g in getters.items():
+            if a not in sigdeps and _self_reads(g) & sigdeps:
+                sigdeps.add(a)
+                grew = True
+    me = uf.params[0]
+    o, args = _typed(uf, 'PGPSignature')
+    outs = Interp(prog, Scenario(inline=noinline, args=args)).run(uf)
+    live = [s for s in outs if s.raised is None]
+    def resorts_after_insert(s):
+        ins = [i for i, e in enumerate(s.events) if e[0] == 'call' and e[1] == '%s._signatures.insort' % me]
+        res = [i for i, e in enumerate(s.events) if e[0] == 'call' and e[1].endswith('._uids.resort') and e[2] == [me]]
+        return bool(ins) and bool(res) and max(ins) < min(res)          # ranked with the new signature in place
+    reach = [path_cond(s.facts) for s in live if resorts_after_insert(s)]
+    R = ('or', reach)
+    free, forced = [], []
+    for a in sorted(atoms(R)):
+        mentions = re.findall(r'(?<![\w.])%s\.(\w+)' % re.escape(o), a)
+        about_other = re.search(r'(?<![\w.])%s(?![\w])' % re.escape(o), a) is not None
+        on_state = set(re.findall(r'(?<![\w.])%s\.(\w+)' % re.escape(me), a)) & sigdeps
+        if on_state:
+            forced.append(a)
+        elif not about_other or (mentions and set(mentions) <= selects and len(mentions) == len(re.findall(r'(?<![\w.])%s(?![\w])' % re.escape(o), a))):
+            free.append(a)          # key present / user id filed / the attributes the rank itself selects the signature by
+        else:
+            forced.append(a)        # anything else about the signature may not narrow the re-sort
+    ok = bool(reach)
+    if ok:
+        names = free + forced
+        if len(names) > 12:
+            raise AnalysisError('PGPUID.__or__: resort guarded by %d decisions' % len(names))
+        import itertools
+        from sa.condtab import evaluate
+        ok = False
+        for fv in itertools.product((False, True), repeat=len(free)):
+            if all(evaluate(R, dict(zip(names, fv + ov))) for ov in itertools.product((False, True), repeat=len(forced))):
+                ok = True
+                break
+    rep.check(ok, 'C14.5', 'PGPUID.__or__', 'resort reached under %s; rank selects a signature by %s; narrowing decisions %s' % (
+              [fact_list(s.facts) for s in live if resorts_after_insert(s)], sorted(selects), forced),
+              'the rank of a user id in its key reads its most recent self-issued signature of ANY type: every attached signature the rank can '
+              'select must be followed by the re-sort, or the in-memory order (and every later export / copy) goes stale', where=uf.where,
+              expected='resort whenever the user id is filed in a key', found=forced)
+
+
+def fact_list(facts):
+    return [f[0] if f[1] else 'not ' + f[0] for f in facts]
